@@ -23,7 +23,7 @@ MANIFEST = {
     "note": "Trusted: Lean kernel; db/index.js as the syntax of the database; tools/x86forms.py (instantiation of a form), gen_*.py; "
             "lean/implemented_forms.txt (vendored: what the pinned release accepts); harness/driver diff. The encoder leg is tested, not proved.",
 }
-MODS = ["AsmjitVerif.Props.C13", "AsmjitVerif.Props.C13X86"]
+MODS = ["AsmjitVerif.Props.C13", "AsmjitVerif.Props.C13X86", "AsmjitVerif.Props.C13Sound"]
 
 GROUP = {"swap": "operands", "drop": "operands", "gap": "operands", "dup": "operands", "extra-imm": "operands",
          "reg-size": "reg", "reg-id": "reg", "reg->mem": "reg", "imm-range": "imm", "imm->label": "imm", "label->imm": "imm"}
@@ -60,10 +60,14 @@ def generate():
     excl = [i["line"] for i in insts if not i["allowed"]]
     if len(allow) < 1000:
         raise gen_x86forms.TranslateError("only %d implemented database forms - vendored list and database no longer match" % len(allow))
-    s, na, ne = gen_x86forms.render(allow, excl)
-    vlib.gen_write("AsmjitVerif/Gen/X86Forms.lean", s)
-    for rel, content in gen_x86forms.render_props(na, ne).items():
+    id2name = {i: n for n, i in name2id.items()}
+    for rel, content in gen_x86forms.render_buckets(sig, id2name, allow, excl).items():
         vlib.gen_write(rel, content)
+    for rel, content in gen_x86forms.render_sound(db, name2id, archs["x86"]["count"]).items():
+        vlib.gen_write(rel, content)
+    for old in list((vlib.LEAN / "AsmjitVerif" / "Gen").glob("X86FormsChecked*.lean")) + [vlib.LEAN / "AsmjitVerif" / "Gen" / "X86Forms.lean"]:
+        if old.exists():
+            old.unlink()      # layout of the first rounds
     return {"harness": h, "archs": archs, "db": db, "aliases": rows, "aliases_skipped": skipped, "sig": sig, "insts": insts,
             "proved_rows": (len(allow), len(excl))}
 
